@@ -38,6 +38,18 @@ func InterpolateInExponent[G algebra.PrimeGroupElement[G, F], F algebra.PrimeFie
 	}
 
 	group := algebra.StructureMustBeAs[algebra.PrimeGroup[G, F]](ys[0].Structure())
+	if len(xs) == 1 {
+		// 1×1 system: the cofactor of the single entry is 1 (Minor is undefined for 1×1 matrices).
+		polyModule, err := polynomials.NewPolynomialModule(group)
+		if err != nil {
+			return nil, errs.Wrap(err).WithMessage("could not create polynomial ring")
+		}
+		poly, err := polyModule.New(ys[0].ScalarOp(denInv))
+		if err != nil {
+			return nil, errs.Wrap(err).WithMessage("could not create polynomial")
+		}
+		return poly, nil
+	}
 	coeffs := make([]G, 0, len(xs))
 	for c := range xs {
 		num := group.OpIdentity()
